@@ -292,7 +292,7 @@ func cmdRun(args []string) int {
 	fs := flag.NewFlagSet("run", flag.ExitOnError)
 	tier := fs.String("tier", "", "quick|thorough")
 	jobs := fs.Int("j", 0, "parallel workers")
-	only := fs.String("only", "", "substring filter on unit ids (debugging; evidence is still written)")
+	only := fs.String("only", "", "substring filter on unit ids (debugging; evidence goes to evidence/<ID>.partial.json)")
 	patch := fs.String("patch", "", "apply this diff to a scratch copy of the repository (via -overlay) instead of testing /repo itself; no evidence is written")
 	keep := fs.Bool("keep", false, "keep temp dir")
 	fs.Parse(args[1:])
@@ -617,7 +617,11 @@ func cmdRun(args []string) int {
 	if patchFile == "" {
 		os.MkdirAll(filepath.Join(root, "evidence"), 0o755)
 		data, _ := json.MarshalIndent(ev, "", " ")
-		if err := os.WriteFile(filepath.Join(root, "evidence", prop+".json"), data, 0o644); err != nil {
+		evName := prop + ".json"
+		if *only != "" {
+			evName = prop + ".partial.json" // a filtered (debugging) run never replaces the property's evidence
+		}
+		if err := os.WriteFile(filepath.Join(root, "evidence", evName), data, 0o644); err != nil {
 			return engineError("%v", err)
 		}
 	}
